@@ -485,7 +485,8 @@ pub fn dashops(seed: u64, n: usize) -> Vec<Value> {
             let (mut x, mut y) = (r.range(8, 18) as i32, r.range(8, 18) as i32);
             let (sx, sy) = (x, y);
             ops.push(json!(["M", x, y]));
-            let nseg = r.range(1, 3);
+            // one subpath in ten is a single point (possibly closed): it paints nothing and must not disturb its neighbours
+            let nseg = if r.chance(1, 10) { 0 } else { r.range(1, 3) };
             for _ in 0..nseg {
                 let m = moves[r.range(0, 15) as usize];
                 x += m.0;
